@@ -520,7 +520,7 @@ func TestVerifC09Config(t *testing.T) {
 	rep.Assume("override rule re-stated from documentation/configuration.md: a stream-level setting that is set replaces the server-wide one, 0 = no limit / no TTL")
 	rep.Assume("age: real clock with margins of >= 10 minutes (expiry flags computed before and after the clean must agree, else inconclusive)")
 	root := kit.NewRNG(kit.Mix(kit.Seed(), 0xC09F))
-	n := kit.Scale(140, 700)
+	n := kit.Scale(140, 2000)
 	seeds := make([]uint64, n)
 	for i := range seeds {
 		seeds[i] = root.Uint64()
